@@ -151,3 +151,13 @@ add("C16", "exploration",
     "emits RST and no relay can promise delivery then); only end-of-stream and the fd baseline are asserted for dirty/both closes. The 5 s "
     "bound is three orders of magnitude above the observed latency; a miss is re-run once before it counts.",
     "stateful property-based testing (rapid): generated open/write/close histories, end-of-stream and resource-baseline oracle", "3/C16")
+add("C18", "exploration",
+    "Generated registries (0-6 backends, overlapping/nested/duplicate/empty prefixes, users incl. allUsers, last-seen ages around the 5-minute "
+    "window) are written through app/store's real AddBackend/ListPendingRequests into a wire-level fake of datastore_v3 and looked up with "
+    "LookupBackend in-process; an independent longest-prefix specification yields the set of acceptable answers (ties and dead best matches "
+    "are set-valued); determinism under repetition and under permuted insertion order into a fresh datastore, and a metamorphic relation "
+    "(adding a non-matching backend changes nothing) are checked as well. The thorough tier enumerates all registries of <= 3 single-prefix "
+    "backends exhaustively (about 23 000 registries x 8 paths).",
+    "The fake datastore implements only what the code uses (kind queries with equality/inequality filters in key order, strong consistency); "
+    "eventual consistency and index lag of the real Datastore are outside the model. Ages are set 2 s away from the window boundary.",
+    "property-based testing (rapid) against an independent set-valued specification; metamorphic and determinism relations; bounded-exhaustive enumeration in the thorough tier", "3/C18")
